@@ -261,7 +261,9 @@ class Reader(BaseValidator):
         """
         self.accepted_rows_count = 0
         self.rejected_rows_count = 0
-        # Start counting rows from the beginning in case the reader is read again.
+        # Start counting rows from the beginning in case the reader is read again;
+        # the data read from now on need their own checks at the end.
+        self._is_closed = False
         self._location = errors.Location(self._location.file_path, has_cell=True)
         for check in self.cid.check_map.values():
             check.reset()
